@@ -7,6 +7,10 @@ CONSTANTS
   MaxDstFrag = 1
   MaxQ = 0
   Ops = {}
+  EmptyBases = {"slice"}
+  ForeignBytes = {0}
+  ArrKinds = {}
+  MaxFail = 0
 INVARIANTS Refines
 PROPERTIES DesignAgrees OnceAgrees
 POSTCONDITION TraceAccepted
